@@ -372,5 +372,6 @@ impl FrameEncoder {
 //@@ end
 }
 
+
 } // verus!
 fn main() {}
